@@ -362,7 +362,18 @@ fn quant_ranks(case: &Value) -> Value {
     ev["confv"] = crate::conf::enc_conf(&conf);
     ev["qv"] = enc::enc_f64(q);
     // the f64 product q*n and its rounding, as the element type computes them (observation)
-    ev["qn"] = enc::enc_f64(q * n as f64);
+    let qn = q * n as f64;
+    ev["qn"] = enc::enc_f64(qn);
+    // observation for the judge: the crate's own Wilson intervals of the two counts adjacent to q*n
+    if qn.is_finite() && qn >= 0.0 && qn < 1e9 {
+        let kf = qn.floor() as usize;
+        ev["wil"] = json!([
+            {"k": kf, "out": guard(|| ok_f64(proportion::ci_wilson(conf, n, kf)))},
+            {"k": kf + 1, "out": guard(|| ok_f64(proportion::ci_wilson(conf, n, kf + 1)))},
+        ]);
+    } else {
+        ev["wil"] = json!([]);
+    }
     ev["out"] = guard(|| ok_usize(quantile::ci_indices(conf, n, q)));
     ev["out_stats"] = guard(|| ok_usize(quantile::Stats::new(n).ci(conf, q)));
     ev
@@ -409,6 +420,8 @@ fn quant_data(case: &Value) -> Value {
     ev["confv"] = crate::conf::enc_conf(&conf);
     ev["qv"] = enc::enc_f64(q);
     ev["n"] = json!(keys.len());
+    // observation for the judge: the rank interval of the same (n, q, confidence)
+    ev["ranks"] = guard(|| ok_usize(quantile::ci_indices(conf, keys.len(), q)));
     macro_rules! run_ty {
         ($t:ty, $emb:expr, $back:expr) => {{
             let data: Vec<$t> = keys.iter().map($emb).collect();
